@@ -76,7 +76,7 @@ func numU(class string, bits uint) uint64 {
 	return max
 }
 
-const pathAlphabet = "abcdefghijklmnopqrstuvwxyzABCXYZ0123456789 _-+=,;@#$%&()[]{}'!~.é中"
+const pathAlphabet = "abcdefghijklmnopqrstuvwxyzABCXYZ0123456789 _-+=,;@#$%&()[]{}'!~.é中\"<>\a\v\x01\x7f\t\n\U000E0001😀"
 
 // legalPath builds a relative path of exactly n bytes that validateRelPath accepts.
 func legalPath(rng *rand.Rand, n int) string {
@@ -369,6 +369,31 @@ func WireValues(args []string) {
 		}
 		res.Steps++
 	}
+	// one manifest document well above 16 MiB (the length prefix has 32 bits; a tree of some ten thousand long paths)
+	{
+		m := manifest.Manifest{Root: "big"}
+		stem := legalPath(rng, 400)
+		for k := 0; k < 45000; k++ {
+			it := manifest.FileItem{RelPath: fmt.Sprintf("%s/%06d", stem, k), Size: int64(k), ModTime: 1700000000 + int64(k), ID: fmt.Sprintf("%016x", rng.Uint64())}
+			m.Items = append(m.Items, it)
+			m.FileCount++
+			m.TotalBytes += it.Size
+		}
+		var buf bytes.Buffer
+		if err := transfer.VerifWriteControlHeader(&buf, m); err != nil {
+			res.AddViolation(map[string]any{"kind": "encoder_rejects_value_within_limits", "case": "Header"}, map[string]any{"err": err.Error(), "items": len(m.Items)})
+		} else {
+			size := buf.Len()
+			got, err := transfer.VerifReadControlHeader(&segReader{r: bytes.NewReader(buf.Bytes()), max: 1 << 16})
+			if err != nil {
+				res.AddViolation(map[string]any{"kind": "decoder_fails_on_encoded_record", "case": "Header"}, map[string]any{"err": err.Error(), "items": len(m.Items), "document_bytes": size})
+			} else if !reflect.DeepEqual(m, got) {
+				res.AddViolation(map[string]any{"kind": "decoded_value_differs", "case": "Header"}, map[string]any{"items": len(m.Items), "document_bytes": size})
+			}
+			res.Extra["largest_header_bytes"] = size
+		}
+		res.Steps++
+	}
 	res.Extra["rows_by_type"] = byType
 	res.Print()
 }
@@ -643,6 +668,37 @@ func (c *caseCtx) senderScript(r mutRow) (ctrl []byte, data []byte) {
 		cb.WriteString("SBC1")
 		cb.Write(be32(uint64(len(g))))
 		cb.Write(g)
+	case isT("Header") && mut == "item-without-id":
+		// a manifest whose entries carry no id (the field is optional in the document), then an ordinary transfer with a
+		// resume negotiation for every file that has content
+		m2 := c.m
+		m2.Items = append([]manifest.FileItem(nil), c.m.Items...)
+		for i := range m2.Items {
+			m2.Items[i].ID = ""
+		}
+		var hb bytes.Buffer
+		transfer.VerifWriteControlHeader(&hb, m2)
+		cb.Write(hb.Bytes())
+		cb.Write(encode(transfer.DataStreams{Count: 1}))
+		for _, f := range c.files {
+			f.ID = ""
+			key := transfer.VerifFileKey(f)
+			data, _ := os.ReadFile(filepath.Join(c.src, filepath.FromSlash(f.RelPath)))
+			cb.Write(encode(transfer.FileBegin{RelPath: f.RelPath, FileSize: uint64(f.Size), ChunkSize: c.chunk, StreamID: key, HashAlg: 1}))
+			if len(data) > 0 {
+				cb.Write(encode(transfer.ResumeRequest{FileID: "", StreamID: key}))
+			}
+			for off := 0; off < len(data); off += int(c.chunk) {
+				hi := off + int(c.chunk)
+				if hi > len(data) {
+					hi = len(data)
+				}
+				db.Write(chunkFrame(key, uint32(off/int(c.chunk)), data[off:hi], true, -1))
+			}
+			cb.Write(encode(transfer.FileEnd{StreamID: key}))
+		}
+		c.tail = encode(nil)
+		return cb.Bytes(), db.Bytes()
 	case isT("Header") && (strings.HasPrefix(mut, "length-") || strings.HasPrefix(mut, "truncate")):
 		cb.Write(mutateBytes(c.rng, hdr, mut, 4, 4))
 		if strings.HasPrefix(mut, "truncate") {
@@ -909,7 +965,7 @@ func WireCase(args []string) {
 					o.Panic = fmt.Sprint(pv)
 				}
 			}()
-			_, err := transfer.RecvManifestMultiStream(context.Background(), p.End(vnet.B), filepath.Join(dir, "out"), transfer.Options{ParallelFiles: 1})
+			_, err := transfer.RecvManifestMultiStream(context.Background(), p.End(vnet.B), filepath.Join(dir, "out"), transfer.Options{ParallelFiles: 1, Resume: c.Fill%2 == 1 || c.Row.Mutation == "item-without-id"})
 			if err != nil {
 				o.Err = err.Error()
 			}
@@ -978,7 +1034,7 @@ func WireCase(args []string) {
 					o.Panic = fmt.Sprint(pv)
 				}
 			}()
-			_, err := transfer.RecvManifestMultiStream(context.Background(), p.End(vnet.B), filepath.Join(dir, "out3"), transfer.Options{ParallelFiles: 1})
+			_, err := transfer.RecvManifestMultiStream(context.Background(), p.End(vnet.B), filepath.Join(dir, "out3"), transfer.Options{ParallelFiles: 1, Resume: c.Fill%2 == 1 || c.Row.Mutation == "item-without-id"})
 			if err != nil {
 				o.Err = err.Error()
 			}
